@@ -15,6 +15,7 @@ import (
 func init() {
 	Sched["c03_frames"] = c03Frames
 	Sched["c03_pair"] = c03Pair
+	Sched["c03_slow"] = c03Slow
 	Sched["c03_deadline"] = c03Deadline
 }
 
@@ -62,6 +63,9 @@ func newC03srv(veto string, unknown bool) *c03srv {
 		s.pushes[ctx.Seq()]++
 		if *arg == "panic" {
 			panic("push handler panic")
+		}
+		if *arg == "block" {
+			s.gate.Wait()
 		}
 		return nil
 	})
@@ -245,6 +249,60 @@ func c03Pair(p Params) func() {
 		vsched.Quiesce()
 		s.checkWire([]world.Frame{f1, f2}, raw, ctxt)
 		vsched.Logf("%s %s %d", k1, k2, seq2)
+		raw.Close()
+		s.peer.Close()
+		vsched.Quiesce()
+		if l := vsched.Live(); l != 0 {
+			vsched.Failf("%d goroutines still blocked after close: %s | %s", l, vsched.BlockedDesc(), ctxt)
+		}
+	}
+}
+
+// c03Slow: a handler (of a PUSH or of a CALL) that stays blocked until the CALL received right behind it has been
+// answered -- e.g. a handler that itself waits for something the remote caller only does after that answer. Every
+// handler behaviour is in scope of the property ("slow" included): the CALL behind it must be handled and answered
+// while the connection stays up. The gate is opened by the harness only once the system is quiescent.
+func c03Slow(p Params) func() {
+	proto := p.Get("proto", "raw")
+	return func() {
+		begin()
+		s := newC03srv("none", false)
+		s.proto = proto
+		raw, sc := vnet.Pipe(vnet.NewAddr(), vnet.NewAddr())
+		if _, st := s.peer.ServeConn(sc, world.Proto(proto)); !st.OK() {
+			vsched.Failf("ServeConn: %v", st)
+		}
+		firstPush := vsched.Choose(2, "first_is_push") == 1
+		if firstPush && proto == "http" {
+			world.Counter("not_representable")
+			return
+		}
+		second := []string{"ret", "err", "panic", "unmarsh"}[vsched.Choose(4, "second")]
+		f1 := world.Frame{Seq: 7, Mtype: erpc.TypeCall, Method: s.callRoute, Codec: 'j', Body: []byte(`"block"`)}
+		if firstPush {
+			f1 = world.Frame{Seq: 7, Mtype: erpc.TypePush, Method: s.pushRoute, Codec: 'j', Body: []byte(`"block"`)}
+		}
+		f2 := world.Frame{Seq: 8, Mtype: erpc.TypeCall, Method: s.callRoute, Codec: 'j', Body: []byte(fmt.Sprintf("%q", second))}
+		ctxt := f1.String() + " " + f2.String()
+		b1, _ := world.EncodeFrame(proto, f1)
+		b2, _ := world.EncodeFrame(proto, f2)
+		raw.Write(append(b1, b2...))
+		vsched.Quiesce()
+		// the first handler is still blocked; the CALL behind it must have been handled and answered by now
+		out, _, _ := world.DecodeFrames(proto, raw.Peer().Written)
+		answered := 0
+		for _, f := range out {
+			if f.Mtype == erpc.TypeReply && f.Seq == 8 {
+				answered++
+			}
+		}
+		if answered != 1 || s.calls[8] != 1 {
+			vsched.Failf("a CALL received behind a message whose handler is still running was handled %d times and answered %d times while the connection stayed up | %s", s.calls[8], answered, ctxt)
+		}
+		s.gate.Open()
+		vsched.Quiesce()
+		s.checkWire([]world.Frame{f1, f2}, raw, ctxt)
+		vsched.Logf("%v %s", firstPush, second)
 		raw.Close()
 		s.peer.Close()
 		vsched.Quiesce()
